@@ -25,6 +25,10 @@ func c17source(v int) string {
 	step := []string{"i++", "i--", "i += 2"}[v]
 	field := []string{"X", "Y", "Z"}[v]
 	sum := []string{"a + b", "a + c", "a + a"}[v] // the left operand stays: only operand B of LOCALADD differs
+	// bodies whose local declarations change their kind: a local type in one version, a function value or a plain
+	// variable of the same name in the next; a local struct type whose fields change
+	local := []string{"type cel float64\n\tx := cel(3)\n\treturn int(x / 2 * 10)", "cel := func(x int) int {\n\t\treturn x * 10\n\t}\n\treturn cel(3)/2 + 100", "cel := 4\n\tcel += 2\n\treturn cel + 1 + 200"}[v]
+	recField := []string{"a", "bb", "ccc"}[v]
 	return fmt.Sprintf(`package live
 
 import (
@@ -75,6 +79,18 @@ func Delta() int {
 	return i*1000 + xs[%[1]d]*100 + t.%[3]s*10 + (%[4]s)
 }
 
+func Local() int {
+	%[5]s
+}
+
+func Local2() int {
+	type rec struct {
+		%[6]s int
+	}
+	r := &rec{%[6]s: 1}
+	return len(fmt.Sprint(r))
+}
+
 func F() string {
 	return "F%[1]d"
 }
@@ -105,7 +121,7 @@ func helper() string {
 }
 
 func Main() {
-	fmt.Println(F(), (&T{}).M(), helper(), Shadow(), util.Greet(), Delta(), zeroed)
+	fmt.Println(F(), (&T{}).M(), helper(), Shadow(), util.Greet(), Delta(), zeroed, Local(), Local2())
 	keep++
 	fmt.Println(keep, reinit, anyv, named == nil)
 	reinit++
@@ -150,7 +166,7 @@ func Yielding() {
 		fmt.Println(capF(), bound())
 	}
 }
-`, v, step, field, sum)
+`, v, step, field, sum, local, recField)
 }
 
 // the imported package lives at an import path that differs from its package name
@@ -181,7 +197,7 @@ func (s *c17ref) step(ev int) string {
 		s.zeroed = 0
 		return ""
 	case ev == 3:
-		out := fmt.Sprintf("%s %s %s-%s 87 G%d %d %d\n", tag(), mt(), tag(), mt(), s.ver, c17delta[s.ver], s.zeroed)
+		out := fmt.Sprintf("%s %s %s-%s 87 G%d %d %d %d %d\n", tag(), mt(), tag(), mt(), s.ver, c17delta[s.ver], s.zeroed, []int{15, 115, 207}[s.ver], 6+s.ver)
 		s.keep++
 		if s.anyv == "" {
 			s.anyv = "nil"
